@@ -331,9 +331,10 @@ Fixpoint pattern_aux (len : nat) (a b c : N) : bytes :=
 Definition pattern (seed : N) (len : nat) : bytes :=
   pattern_aux len (seed mod 256) ((seed / 256) mod 256) ((seed / 65536) mod 256).
 
-(** bundles of more than 3000 octets are [pattern], shorter ones [mkdata] *)
+(** bundles of more than 64 octets are [pattern] (the LCG of [mkdata] costs a
+    32-bit multiplication and division per octet), shorter ones [mkdata] *)
 Definition gen_data (seed len : N) : bytes :=
-  if 3000 <? len then pattern seed (N.to_nat len) else mkdata seed (N.to_nat len).
+  if 64 <? len then pattern seed (N.to_nat len) else mkdata seed (N.to_nat len).
 
 Definition opt_list {A} (o : option A) : list A := match o with Some x => [x] | None => [] end.
 
